@@ -78,6 +78,20 @@ pub fn fromstr(size: usize, rng: &mut Rng, out: &mut Out) {
 
 /// (method, template, handler) triples of the example's route table, read from its source text
 pub fn oci_table() -> Vec<(String, String, String)> {
+    // the table as the translator read it on this run (tools/extract.py resolves constants and tuple tables)
+    let tsv = concat!(env!("CARGO_MANIFEST_DIR"), "/../lean/Wayfind/Generated/oci_routes.tsv");
+    if let Ok(text) = std::fs::read_to_string(tsv) {
+        let rows: Vec<(String, String, String)> = text
+            .lines()
+            .filter_map(|l| {
+                let f: Vec<&str> = l.split('\t').collect();
+                (f.len() == 3).then(|| (f[0].to_owned(), f[1].to_owned(), f[2].to_owned()))
+            })
+            .collect();
+        if !rows.is_empty() {
+            return rows;
+        }
+    }
     let src = std::fs::read_to_string("/repo/examples/oci/src/lib.rs").unwrap_or_default();
     let mut out = vec![];
     let mut rest = src.as_str();
